@@ -5,10 +5,15 @@ package astisub
 // (go test -overlay) and when the translator is validated: they read the recorded input vector.
 
 import (
+	"bufio"
 	"encoding/json"
+	"errors"
 	"fmt"
 	"os"
+	"reflect"
 	"strings"
+	"time"
+	"unsafe"
 )
 
 var (
@@ -164,3 +169,23 @@ func vrunOnce(h func()) (res string) {
 	h()
 	return ""
 }
+
+// vscannerSplit returns the split function installed in a bufio.Scanner (an unexported field; the engine reads
+// the field of its own representation, the native run uses reflect+unsafe).
+func vscannerSplit(s *bufio.Scanner) bufio.SplitFunc {
+	f := reflect.ValueOf(s).Elem().FieldByName("split")
+	return *(*bufio.SplitFunc)(unsafe.Pointer(f.UnsafeAddr()))
+}
+
+func timeDur(ns int64) time.Duration { return time.Duration(ns) }
+
+// Environment providers used by the engine for os.Open / os.Create (never called natively: a native run uses the real OS).
+var vstubFail bool
+
+func vstubOpen(name string) error {
+	if vstubFail {
+		return errors.New("verif: open failed")
+	}
+	return nil
+}
+func vstubCreate(name string) error { return vstubOpen(name) }
